@@ -335,6 +335,10 @@ def parse_output(text):
         elif ln.startswith('Tests were shuffled using seed number '):
             try:
                 info['seed'] = int(ln.split()[-1].rstrip('.'))
+                if cur is not None:
+                    # (a layer subprocess reports the seed it used at the
+                    # end of its own block)
+                    cur['seed'] = info['seed']
             except ValueError:
                 pass
         elif ln.startswith('Tearing down left over layers:'):
